@@ -1152,7 +1152,7 @@ Section Exact.
   Fixpoint decode_spec (fuel : nat) (raising : bool) (t : ty) (d : jdoc) : value :=
     match fuel with
     | 0 => dummy_value
-    | S f => val_step e parseF (decJ f) (decode_spec f false) raising t d
+    | S f => val_step e parseF (djmix e wildcard ps_empty ignore parseF f) (decode_spec f false) raising t d
     end.
 
   Definition raises (fuel : nat) (top : bool) (t : ty) (d : jdoc) (tr : tracker) : bool :=
@@ -1168,7 +1168,8 @@ Section Exact.
   Proof.
     induction fuel as [|f IH]; intros top t d tr Hws Hsc Hke; [contradiction|].
     rewrite decJ_unfold. cbn [decode_spec missing_spec]. unfold raises. cbn [missing_spec].
-    apply (stepJ_exact e wildcard ignore parseF (decJ f) Hwf (well_shaped f) (decode_spec f false) (missing_spec e f));
+    apply (stepJ_exact e wildcard ignore parseF (djmix e wildcard ps_empty ignore parseF f) Hwf (well_shaped f) (decode_spec f false)
+             (missing_spec e f));
       [|exact Hws|exact Hsc|exact Hke].
     intros t0 x tr0 Hw Hne Hne2. destruct (IH false t0 x tr0 Hw Hne2) as [tr' H]; [intros E; contradiction|].
     exists tr'. exact H.
@@ -1624,7 +1625,8 @@ Section Sim.
   Proof.
     induction fuel as [|f IH]; intros t d1 d2 Hws Hs; [contradiction|].
     cbn [MissingProofs.well_shaped MissingProofs.decode_spec missing_spec sim] in *.
-    apply (sim_step_ok (sim f) parseF (decJ f) (well_shaped f) (decode_spec f false) (missing_spec e f)); [|exact Hws|exact Hs].
+    apply (sim_step_ok (sim f) parseF (djmix e wildcard ps_empty ignore parseF f) (well_shaped f) (decode_spec f false) (missing_spec e f));
+      [|exact Hws|exact Hs].
     intros t0 x1 x2 Hw Hsx. destruct (IH t0 x1 x2 Hw Hsx) as [A [B C]]. auto.
   Qed.
 
